@@ -1,12 +1,22 @@
 import Knut.Driver.C11
+import Knut.Driver.C07
 import Knut.Driver.Dec
+import Knut.Driver.C19
+import Knut.Driver.C12
+import Knut.Driver.C04
+import Knut.Driver.C17
 /-! Line-protocol driver over the executable model: one request per line (`op field*`), one answer line.
 Each property contributes a handler module `Knut/Driver/<X>.lean`; add it to `handlers`. -/
 open Knut Knut.Wire
 
 def handlers : List (List String → Option String) := [
+  Knut.Driver.C19.handle,
+  Knut.Driver.C17.handle,
   Knut.Driver.C11.handle,
-  Knut.Driver.Dec.handle
+  Knut.Driver.C07.handle,
+  Knut.Driver.C12.handle,
+  Knut.Driver.Dec.handle,
+  Knut.Driver.C04.handle
 ]
 
 def handle (fields : List String) : String :=
